@@ -146,6 +146,7 @@ def run(ctx):
                         'it first - a log line that joins it - leaves nothing for the listing, so the lookup returns no recordings' % (
                             nm_, prod_.qualname, m_.qualname, len(reads_), ', '.join(str(r.lineno) for r in reads_))))
     common.import_clauses(ctx, res, 'C10', ['C10.a'], 'C16', 'C16.h', 'R-SIBLING', 'S3 listing prefixes are the category followed by the id delimiter (and a day folder)', floor=2)
+    common.import_clauses(ctx, res, 'C15', ['C15.e'], 'C16', 'C16.j', 'R-ORDER', 'what a window lookup lists can be fetched: the listed object is written after the full object', floor=1)
     try:
         _run_rest(ctx, res)
     except AnalysisError as ex:
